@@ -63,7 +63,8 @@ def gen_sequence(rng, maxops):
         elif k in ('extend', 'iadd', 'replace'):
             if k == 'replace' and rng.random() < 0.6:
                 continue
-            ops.append((k, picks(0, 3)))
+            # the argument may be any iterable: a list, a tuple, or something that can be walked only once
+            ops.append((k, picks(0, 3), rng.choice(['list', 'list', 'tuple', 'gen', 'iter', 'reversed'])))
         elif k in ('insert', 'setitem'):
             ops.append((k, arg(), pick()))
         elif k == 'setslice':
@@ -213,6 +214,19 @@ class Impl(object):
         except (IndexError, KeyError, ValueError) as e:
             return 'fail:' + type(e).__name__
 
+    def iterable(self, op):
+        xs = [self.obj(o) for o in op[1]]
+        form = op[2] if len(op) > 2 else 'list'
+        if form == 'tuple':
+            return tuple(xs)
+        if form == 'gen':
+            return (x for x in xs)
+        if form == 'iter':
+            return iter(xs)
+        if form == 'reversed':
+            return reversed(xs[::-1])
+        return xs
+
     def real_apply(self, op):
         L = self.lst()
         k = op[0]
@@ -220,9 +234,9 @@ class Impl(object):
             if k == 'append':
                 L.append(self.obj(op[1]))
             elif k == 'extend':
-                L.extend([self.obj(o) for o in op[1]])
+                L.extend(self.iterable(op))
             elif k in ('iadd', 'imul'):
-                arg = [self.obj(o) for o in op[1]] if k == 'iadd' else op[1]
+                arg = self.iterable(op) if k == 'iadd' else op[1]
                 if self.doc is None:
                     if k == 'iadd':
                         self.L += arg
@@ -237,7 +251,7 @@ class Impl(object):
                     if getattr(self.doc, self.host) is not tmp:
                         return 'raw:augmented-assignment-rebinds'
             elif k == 'replace':
-                xs = [self.obj(o) for o in op[1]]
+                xs = self.iterable(op)
                 if self.doc is None:
                     from collada.util import IndexedList
                     self.L = IndexedList(xs, ('id',))
